@@ -125,6 +125,7 @@ Elem(words, i, pos, nval, dashed, remAsVal) ==
    ELSE IF Len(w) = 1 THEN El("err", 0, <<>>, i, 0, FALSE, dashed)             \* single dash
    ELSE IF w[2] = Dash THEN
       IF Len(w) = 2 THEN Elem(words, i + 1, 0, FALSE, TRUE, FALSE)             \* bare "--"
+      ELSE IF w[3] = Dash THEN El("undef", 0, <<>>, i, 0, FALSE, dashed)       \* three or more dashes: not documented
       ELSE LET name == Tail2(w, 3)
                e == PosOf(name, EqSign) IN
            IF e = 0 THEN El("long", 0, name, i + 1, 0, FALSE, dashed)
@@ -219,6 +220,15 @@ InsertDesc(s, v) == IF Len(s) = 0 THEN <<v>>
                     ELSE <<s[1]>> \o InsertDesc(Tail2(s, 2), v)
 RECURSIVE SortInts(_)
 SortInts(s) == IF Len(s) = 0 THEN <<>> ELSE InsertSorted(SortInts(Tail2(s, 2)), s[1])
+\* strings sort like std::string compares: byte-wise, a prefix first (LexLt is defined with the key-value containers below)
+RECURSIVE LexLt(_, _)
+RECURSIVE InsertSortedStr(_, _)
+InsertSortedStr(s, v) == IF Len(s) = 0 THEN <<v>>
+                         ELSE IF LexLt(v, s[1]) THEN <<v>> \o s
+                         ELSE <<s[1]>> \o InsertSortedStr(Tail2(s, 2), v)
+RECURSIVE SortStrs(_)
+SortStrs(s) == IF Len(s) = 0 THEN <<>> ELSE InsertSortedStr(SortStrs(Tail2(s, 2)), s[1])
+SortElems(kind, s) == IF kind = "vecstr" THEN SortStrs(s) ELSE SortInts(s)
 AddTo(kind, s, v) ==
    CASE kind = "setint"  -> IF Contains(s, v) THEN s ELSE InsertSorted(s, v)
      [] kind = "msetint" -> InsertSorted(s, v)
@@ -229,7 +239,6 @@ SortedKind(kind) == kind \in {"setint", "msetint", "pqint"}
 
 \* key-value containers: pair text "key,value" (default pair format), content ordered by key (byte-wise)
 PairSep == 44
-RECURSIVE LexLt(_, _)
 LexLt(a, b) == IF Len(b) = 0 THEN FALSE
                ELSE IF Len(a) = 0 THEN TRUE
                ELSE IF a[1] < b[1] THEN TRUE
@@ -391,7 +400,7 @@ AssignTo0(cfg, st, a, hasv, v, count) ==
             c2 == IF HasCard(arg) /\ Len(toks) > 1 THEN c1 + Len(toks) - 1 ELSE c1
             r == FoldTokens(arg, toks, 1, base, st.filled[a])
             sorted == IF arg.sort /\ ~SortedKind(arg.kind)
-                        THEN (IF IsArr(arg.kind) THEN SortInts(SubSeq(r.c, 1, r.filled)) \o Tail2(r.c, r.filled + 1) ELSE SortInts(r.c))
+                        THEN (IF IsArr(arg.kind) THEN SortInts(SubSeq(r.c, 1, r.filled)) \o Tail2(r.c, r.filled + 1) ELSE SortElems(arg.kind, r.c))
                         ELSE r.c IN
         IF r.un THEN Undef(st)
         ELSE IF HasCard(arg) /\ CardMax(EffCard(arg)) >= 0 /\ c2 > CardMax(EffCard(arg)) THEN Fail(st)
